@@ -190,7 +190,9 @@ class Check(object):
                 for o in ur.obls:
                     if o.name in remaining and not o.trivially_true():
                         probes = {}
-                        items.append((list(o.hyps) + list(CTX.scope_constraints), o.goal, True, self.probes_for(eng, o)))
+                        # quantifier-free after expansion: the logic-specific solver decides these in a fraction of the
+                        # time the default strategy needs (measured: 0.7 s against > 120 s)
+                        items.append((list(o.hyps) + list(CTX.scope_constraints), o.goal, True, self.probes_for(eng, o), "QF_AUFLIA"))
                         idx.append(o)
             res = solve.discharge(items, z3_timeout=min(self.z3_timeout, 20), cvc5=False, seed=self.seed)
             for o, r in zip(idx, res):
